@@ -687,20 +687,22 @@ warnings.simplefilter('ignore')
 d = tempfile.mkdtemp(); fn = os.path.join(d, 'table.txt')
 rows = [(10.0, 1.5), (20.0, 2.5), (30.0, 3.5)]
 open(fn, 'w').write('\\n'.join(' '.join(str(x) for x in r) for r in rows) + '\\n')
-pipe = DetectionPipeline(photon_collection=[ModelFunction(func='verif_probes.writer', name='w', arguments={'photon': 1.0, 'pixel_add': 1.0})])
-obs = Observation(parameters=[ParameterValues(key='pipeline.photon_collection.w.arguments.photon', values='_'), ParameterValues(key='pipeline.photon_collection.w.arguments.pixel_add', values='_')],
+pipe = DetectionPipeline(photon_collection=[ModelFunction(func='pyxel.models.photon_collection.illumination', name='illum', arguments={'level': 1.0}),
+                                            ModelFunction(func='verif_probes.writer', name='w', arguments={'pixel_add': 1.0})])
+obs = Observation(parameters=[ParameterValues(key='pipeline.photon_collection.illum.arguments.level', values='_'), ParameterValues(key='pipeline.photon_collection.w.arguments.pixel_add', values='_')],
                   mode='custom', from_file=fn, column_range=(0, 2), readout=Readout(times=[1.0]))
 dt = pyxel.run_mode(mode=obs, detector=VP.detector(), pipeline=pipe)
 node = dt['/bucket'] if '/bucket' in dt.groups else dt
+ds = node.to_dataset() if hasattr(node, 'to_dataset') else node
 VIOLATED, DETAIL = False, 'every custom-mode run is labelled with its row index and its own parameter values'
-ids = list(np.asarray(node['id'].values))
+ids = [int(x) for x in np.asarray(ds['id'].values)]
 for i, (a, b) in enumerate(rows):
-    sel = node.sel(id=i)
+    sel = ds.sel(id=i)
     got = (float(np.asarray(sel['photon'].values).ravel()[0]), float(np.asarray(sel['pixel'].values).ravel()[0]))
-    lab = (float(sel['photon_1' if 'photon_1' in sel.coords else [c for c in sel.coords if 'photon' in str(c) and c != 'photon'][0]].values) if False else None)
-    if got != (a, b) or ids != [0, 1, 2]:
-        VIOLATED, DETAIL = True, f'run id={i}: buckets {got}, table row {(a, b)}, ids {ids}'; break
-""", "expect": "custom mode: the run stored under id i is the run made with row i of the table"}
+    labels = (float(np.asarray(sel['level'].values)), float(np.asarray(sel['pixel_add'].values)))
+    if got != (a, b) or labels != (a, b) or ids != [0, 1, 2]:
+        VIOLATED, DETAIL = True, f'run id={i}: buckets {got}, labels (level, pixel_add) {labels}, table row {(a, b)}, ids {ids}'; break
+""", "expect": "custom mode: the run stored under id i is the run made with row i of the table and carries that row's values as labels"}
 
 
 @unit("C05", "label.custom")
